@@ -36,9 +36,26 @@ fn first_piece_len(input: &[u8], s: &Script) -> usize {
 }
 
 pub fn run_src(src: Src, input: &[u8], cfg: u8, script: &Script, out: &mut Vec<Obs>) -> RunInfo {
-    match src {
+    let info = match src {
         Src::Buffered => run_buffered(input, cfg, script, 2, false, out),
         Src::Async => run_async(input, cfg, script, 2, false, out),
+    };
+    mask_after_fatal(out);
+    info
+}
+
+/// The property fixes the byte position after every *event*; where the cursor rests after a fatal
+/// syntax error (and for the Eofs that follow it) is not stated, so it is not compared. The error
+/// itself and its error_position are.
+pub fn mask_after_fatal(t: &mut [Obs]) {
+    let mut fatal = false;
+    for o in t.iter_mut() {
+        if matches!(&o.ev, Ev::Err(e) if e.is_syntax()) {
+            fatal = true;
+        }
+        if fatal {
+            o.pos = 0;
+        }
     }
 }
 
@@ -145,6 +162,7 @@ impl<'a> Checker<'a> {
                 let mut s2 = script.clone();
                 s2.faults.push((i, Fault::Pending));
                 let info = run_async(input, cfg, &s2, 2, false, &mut got);
+                mask_after_fatal(&mut got);
                 acc.evaluations += 1;
                 acc.traces += 1;
                 acc.transitions += got.len() as u64;
@@ -212,6 +230,7 @@ fn sweep(ctx: &Ctx, ln: u32, sp: &Space, cfgs: &[u8], b: &Bounds, max_total_len:
             .map(|&c| {
                 let mut v = Vec::new();
                 run_slice(&input, c, 2, &mut v);
+                mask_after_fatal(&mut v);
                 v
             })
             .collect();
@@ -514,7 +533,7 @@ pub fn run(ctx: &Ctx) {
          every <=k-cut set for longer ones, uniform piece sizes; also NsReader (resolved events + prefix listing) over an 11-atom namespace alphabet, and raw reads through Reader::stream() between events (read_exact, fill_buf+consume, async read_exact); sources: buffered (read_event_into over a scripted BufRead) \
          and async (read_event_into_async over a scripted AsyncBufRead polled by hand), the latter also with every \
          placement of up to k Poll::Pending answers. Oracle: the trace of the borrowing reader (events, errors, \
-         buffer_position and error_position after every call, two extra calls after Eof), under four configurations (neutral, default, all switches on, neutral + text trimming). non-trivial = some cut falls strictly inside a markup construct (spans from the \
+         buffer_position after every event and recoverable error, error_position after every call, two extra calls after Eof; the resting position after a fatal syntax error is not compared), under four configurations (neutral, default, all switches on, neutral + text trimming). non-trivial = some cut falls strictly inside a markup construct (spans from the \
          reference lexer); counted per (input, schedule), distinct by construction. states = distinct (event-kind \
          sequence, refill count) signatures",
     );
@@ -564,6 +583,7 @@ pub fn run(ctx: &Ctx) {
         for cfg in cfgs {
             let mut r = Vec::new();
             run_slice(&d.1, cfg, 2, &mut r);
+            mask_after_fatal(&mut r);
             let mut got = Vec::new();
             let script = Script::pieces(p);
             let info = run_src(src, &d.1, cfg, &script, &mut got);
@@ -603,6 +623,7 @@ pub fn replay(case: &Value) -> Result<(), String> {
     let src = if case["source"].as_str() == Some("Async") { Src::Async } else { Src::Buffered };
     let mut r = Vec::new();
     run_slice(&input, cfg, 2, &mut r);
+    mask_after_fatal(&mut r);
     let mut got = Vec::new();
     let info = run_src(src, &input, cfg, &script, &mut got);
     println!("input: {:?}\nconfig: {}\nsource: {:?}\nschedule: {}", lossy(&input), cfg_show(cfg), src, script.to_json());
